@@ -272,13 +272,32 @@ def check(res: Result, dim, system, tier, only=None, raw_layout=None):
             fields = L.field_names(tsys)
             gname = "to_" + "".join(GEN[f] for f in fields)
             mname = "to_" + "".join(MOM[f] for f in fields)
-            kw_g = {GEN[f]: 0.8125 + i for i, f in enumerate(fields[2:]) if (f in ("z", "theta", "eta") and dim < 3) or (f in ("t", "tau") and dim < 4)}
-            kw_m = {MOM[f]: 0.8125 + i for i, f in enumerate(fields[2:]) if (f in ("z", "theta", "eta") and dim < 3) or (f in ("t", "tau") and dim < 4)}
-            for bname, o in (("OBJ", B.make_obj(system, "momentum", frows[0])), ("NP", mom_np), ("AKA", mom_ak), ("MP", S.build_mp(rows[0][0], system, "momentum"))):
-                kg = {k: (mpf(x) if bname == "MP" else x) for k, x in kw_g.items()}
-                km = {k: (mpf(x) if bname == "MP" else x) for k, x in kw_m.items()}
-                compare("to_spelling", bname, mname, lambda o=o, km=km: getattr(o, mname)(**km), lambda o=o, kg=kg: getattr(o, gname)(**kg),
-                        {"clause": "to_spelling", "backend": bname, "sys": list(system), "name": mname})
+            for vbase, vtag in ((0.8125, ""), (0.0, ";zero")):
+                kw_g = {GEN[f]: vbase * (1 + i) for i, f in enumerate(fields[2:]) if (f in ("z", "theta", "eta") and dim < 3) or (f in ("t", "tau") and dim < 4)}
+                kw_m = {MOM[f]: vbase * (1 + i) for i, f in enumerate(fields[2:]) if (f in ("z", "theta", "eta") and dim < 3) or (f in ("t", "tau") and dim < 4)}
+                if vtag and not kw_g:
+                    continue
+                for bname, o in (("OBJ", B.make_obj(system, "momentum", frows[0])), ("NP", mom_np), ("AKA", mom_ak), ("MP", S.build_mp(rows[0][0], system, "momentum"))):
+                    kg = {k: (mpf(x) if bname == "MP" else x) for k, x in kw_g.items()}
+                    km = {k: (mpf(x) if bname == "MP" else x) for k, x in kw_m.items()}
+                    compare("to_spelling", bname, mname + vtag, lambda o=o, km=km: getattr(o, mname)(**km), lambda o=o, kg=kg: getattr(o, gname)(**kg),
+                            {"clause": "to_spelling", "backend": bname, "sys": list(system), "name": mname + vtag})
+    # every temporal / longitudinal keyword spelling of the dimension-raising calls, with an ordinary and a zero value
+    if dim < 4:
+        tspell = {"t": ["e", "E", "energy"], "tau": ["m", "M", "mass"]}
+        for g, syns in tspell.items():
+            for sname in syns:
+                for val in (1.375, 0.0, 0):
+                    for meth in ("to_Vector4D", "to_4D"):
+                        for bname, o in (("OBJ", B.make_obj(system, "momentum", frows[0])), ("NP", mom_np), ("AKA", mom_ak)):
+                            compare("embedding_keyword", bname, f"{meth}({sname}={val!r})", lambda o=o, meth=meth, sname=sname, val=val: getattr(o, meth)(**{sname: val}),
+                                    lambda o=o, meth=meth, g=g, val=val: getattr(o, meth)(**{g: val}), {"clause": "embedding_keyword", "backend": bname, "sys": list(system), "name": f"{meth}({sname}={val!r})"})
+    if dim < 3:
+        for val in (1.375, 0.0):
+            for meth in ("to_Vector3D", "to_3D", "to_Vector4D"):
+                for bname, o in (("OBJ", B.make_obj(system, "momentum", frows[0])), ("NP", mom_np), ("AKA", mom_ak)):
+                    compare("embedding_keyword", bname, f"{meth}(pz={val!r})", lambda o=o, meth=meth, val=val: getattr(o, meth)(pz=val), lambda o=o, meth=meth, val=val: getattr(o, meth)(z=val),
+                            {"clause": "embedding_keyword", "backend": bname, "sys": list(system), "name": f"{meth}(pz={val!r})"})
 
     # ------------------------------------------------------------------ Awkward arrays whose records *spell* their fields as momenta
     if only in (None, "raw_awkward"):
